@@ -26,9 +26,15 @@ from pathlib import Path
 from .. import common as C
 from ..common import Corr, Violation, clist, cnat, cz
 
-TRANSLATORS = ['prompt_filter']     # Gen/PromptFilter.v: the code facts the main-process filter model rests on
+TRANSLATORS = ['prompt_filter',     # Gen/PromptFilter.v: the code facts the main-process filter model rests on
+               'prompt_funs']       # Gen/PromptFuns.v: statement trees of the command path (child + main), interpreted by
+                                    # Prompt/Interp.v and tied to Prompt/Model.v / System.v by simulation (Prompt/Tie.v, TieSys.v)
 
 TRUSTED_BASE = [
+    'translate/prompt_funs.py (ast -> terms of Prompt/Syntax.v, fail closed; drops logging / truthiness asserts / docstrings; '
+    'alpha-normalises locals) and the semantics Prompt/Interp.v gives those terms (queue.Queue FIFO, dict/defaultdict/set, '
+    'int identity = CPython small-int cache, pluggy calling Prompt.prompt / on_prompt, a thread runs from one queue.get() to the next '
+    'without interleaving)',
     'correspondence harness harness/props/c07.py (script generator, decoy policy, log -> label sequence: '
     'Relay right after each Send, Take of the addressed trace after each Relay and after each OpenPrompt)',
     'harness/child.py + child_worker.py (real nextline.spawned.main in-process with queue.Queue)',
